@@ -35,6 +35,7 @@ PROBES = [
     'torn_payload',
     'torn_header',
     'append_after_torn_tail',
+    'crash_of_second_writer_handles_survive',
     'negative_index',
     'crash_before_first_byte',
     'crash_after_complete_record',
@@ -190,8 +191,13 @@ def generate(seed, tier, index):
         if c < p_crash:
             rl = _reclen(hd)
             k = r.choice([r.randint(0, rl), r.randint(0, min(rl, 9)), rl - r.randint(0, min(rl, 3)), r.random()])
-            ops.append(['crash_append', _rand_time(r), seedc + index * 100, k, r.choice(['size', 'size', 'boundary'])])
-            live = False
+            base = r.choice(['size', 'size', 'boundary'])
+            if r.random() < 0.35:
+                # the write is cut in a second writer process; the handlers of this process stay alive and go on appending
+                ops.append(['crash_append', _rand_time(r), seedc + index * 100, k, base, r.choice(handles), 'other'])
+            else:
+                ops.append(['crash_append', _rand_time(r), seedc + index * 100, k, base])
+                live = False
             if r.random() < 0.5:
                 ops.append(['read', 'fresh'])
         elif c < p_crash + p_reopen:
